@@ -76,10 +76,20 @@ pub struct Runner<'a> {
     pub also: Option<&'static str>,
     /// emit raw arena snapshots for the arena-level model instead of abstract states
     pub raw: bool,
+    /// search mode (VERIF_POSTMORTEM=n): keep applying up to n more operations to a collection whose
+    /// structure oracle already failed, so that the *consequences* (wrong answers, wrong handles) are observed
+    pub pm_left: usize,
+    pub in_pm: bool,
 }
 
 pub fn silent_panics() {
-    std::panic::set_hook(Box::new(|_| {}));
+    // caught panics are expected (they are reported as answers); with VERIF_FLUSH=1 (the crash-locating
+    // re-run) every panic message goes to stderr so that an uncaught one can be located
+    if std::env::var("VERIF_FLUSH").is_ok() {
+        std::panic::set_hook(Box::new(|info| { eprintln!("panic: {}", info); }));
+    } else {
+        std::panic::set_hook(Box::new(|_| {}));
+    }
 }
 
 impl<'a> Runner<'a> {
@@ -90,6 +100,7 @@ impl<'a> Runner<'a> {
             out, coll: coll.to_string(), variant, cap, real: make(coll, cap, variant), refm: RefMap::new(cap),
             twin: None, ops: vec![], hid, emit: true, oracles: true, handles: BTreeMap::new(), dead: false,
             expiring: coll == "key" || coll == "klist", is_list: coll.ends_with("list"), suite: suite.to_string(), last_count: 0, also: None, raw: suite.starts_with("arena") || suite.starts_with("exh-a"),
+            pm_left: std::env::var("VERIF_POSTMORTEM").ok().and_then(|v| v.parse().ok()).unwrap_or(0), in_pm: false,
         }
     }
 
@@ -106,6 +117,7 @@ impl<'a> Runner<'a> {
             jstr(&self.suite), jstr(&self.coll), self.variant, self.cap, self.ops.len().saturating_sub(1),
             jstr(what), jstr(expected), jstr(observed), ops.join(",")
         ).unwrap();
+        if self.in_pm || self.out.flush { self.out.oracle.flush().unwrap(); }
     }
 
     pub fn end(&mut self) {
@@ -123,8 +135,13 @@ impl<'a> Runner<'a> {
     /// Apply one op. `expect_key`: the key the handle argument is supposed to designate.
     pub fn step(&mut self, op: &Op, expect_key: Option<i64>) -> String {
         if self.dead { return "DEAD".into(); }
+        if self.in_pm {
+            if self.pm_left == 0 { self.dead = true; return "DEAD".into(); }
+            self.pm_left -= 1;
+        }
         *self.out.op_counts.entry(format!("{}.{}", self.coll, op.name)).or_insert(0) += 1;
-        let pre_state = if self.emit { Some(if self.raw { self.real.raw().ok_or(String::from("no raw state")) } else { self.real.state() }) } else { None };
+        let emit_tie = self.emit && !self.in_pm;
+        let pre_state = if emit_tie { Some(if self.raw { self.real.raw().ok_or(String::from("no raw state")) } else { self.real.state() }) } else { None };
         let pre_entries = self.real.entries().unwrap_or_default();
         self.ops.push(op.clone());
         if self.out.flush {
@@ -164,7 +181,7 @@ impl<'a> Runner<'a> {
             "map" | "set" => format!("n={}", count),
             _ => String::new(),
         };
-        if self.emit {
+        if emit_tie {
             let pre = match pre_state.unwrap() { Ok(s) => s, Err(e) => format!("ABSFAIL {}", e) };
             let post = match &post_state { Ok(s) => s.clone(), Err(e) => format!("ABSFAIL {}", e) };
             if self.raw {
@@ -219,7 +236,8 @@ impl<'a> Runner<'a> {
             let key = pre_entries.iter().find(|e| e.0 as i64 == op.a[0]).map(|e| e.1);
             match key.and_then(|k| tw_pre.iter().find(|e| e.1 == k)) {
                 Some(e) => top.a[0] = e.0 as i64,
-                None => { self.twin = None; return; }
+                // a read through a handle that cannot be mapped to the twin is skipped; a write ends the comparison
+                None => { if !matches!(op.name.as_str(), "validx" | "after" | "before") { self.twin = None; } return; }
             }
         }
         cb_reset(None, false);
@@ -227,7 +245,8 @@ impl<'a> Runner<'a> {
         cb_take();
         let tout = match res { Ok(s) => s, Err(_) => "PANIC".to_string() };
         let (a, b) = if gives_handle {
-            let post = self.real.entries().unwrap_or_default();
+            // (a collection whose links can no longer be walked: what a handle designates is unknown)
+            let post = match self.real.entries() { Ok(p) => p, Err(_) => return };
             let tpost = self.twin.as_ref().unwrap().entries().unwrap_or_default();
             let d = |o: &str, es: &[(u32, i64, i64, i64)]| -> String {
                 if o == "none" { "none".into() } else { es.iter().find(|e| e.0.to_string() == o).map_or("dangling".into(), |e| format!("key{}", e.1)) }
@@ -242,7 +261,8 @@ impl<'a> Runner<'a> {
             self.fail(&["C12"], &format!("after clear, `{}` answers differently from a new instance", op.text()), &b, &a);
         }
         // contents must agree as well
-        let e1: Vec<_> = self.real.entries().unwrap_or_default().iter().map(|e| (e.1, e.2, e.3)).collect();
+        // (a collection whose links can no longer be walked is compared by its answers only)
+        let e1: Vec<_> = match self.real.entries() { Ok(es) => es.iter().map(|e| (e.1, e.2, e.3)).collect(), Err(_) => return };
         let e2: Vec<_> = self.twin.as_ref().unwrap().entries().unwrap_or_default().iter().map(|e| (e.1, e.2, e.3)).collect();
         if e1 != e2 && !self.expiring {
             self.fail(&["C12"], "after clear, contents differ from a new instance with the same history", &format!("{:?}", e2), &format!("{:?}", e1));
@@ -377,7 +397,11 @@ impl<'a> Runner<'a> {
         if let Some(ab) = self.real.abs() {
             self.out.eval("C11");
             match ab {
-                Err(e) => { self.fail(&["C11", "C02"], "arena links broken", "mutually consistent parent/child links, sentinel linked nowhere", &e); self.dead = true; return; }
+                Err(e) => {
+                    self.fail(&["C11", "C02"], "arena links broken", "mutually consistent parent/child links, sentinel linked nowhere", &e);
+                    // search mode: the answers of the following operations are still compared with the reference
+                    if self.in_pm || self.pm_left > 0 { broken = true; } else { self.dead = true; return; }
+                }
                 Ok(ab) => {
                     if let Some(e) = &ab.links_err {
                         self.fail(&["C02"], "parent / child links inconsistent", "every parent field equals the slot the node is linked from", e);
@@ -404,8 +428,29 @@ impl<'a> Runner<'a> {
         } else {
             post_entries = self.real.entries().unwrap_or_default();
         }
-        // do not keep using a collection whose structure is already broken (after the checks below)
-        if broken { self.dead = true; }
+        // do not keep using a collection whose structure is already broken (after the checks below);
+        // the tie gets one last, harmless transition (`isempty`) from the broken state, so that every property
+        // whose theorems assume well-formedness of this state sees that their hypothesis fails on the real code
+        if broken && !self.in_pm {
+            if self.pm_left > 0 { self.in_pm = true; }
+            else {
+                self.dead = true;
+                if self.emit && !self.raw {
+                    if let Ok(st) = self.real.state() {
+                        let real = &mut self.real;
+                        let o = catch_unwind(AssertUnwindSafe(|| real.apply(&Op::new("isempty", &[])))).unwrap_or("PANIC".into());
+                        self.ops.push(Op::new("isempty", &[]));
+                        writeln!(self.out.req, "{} isempty | {}", self.coll, st).unwrap();
+                        match self.real.abs_note() {
+                            Some(n) => writeln!(self.out.exp, "out={} | st={} | tr= | abs={}", o, st, n).unwrap(),
+                            None => writeln!(self.out.exp, "out={} | st={} | tr=", o, st).unwrap(),
+                        }
+                        writeln!(self.out.ctx, "H{} {}", self.hid, self.ops.len() - 1).unwrap();
+                        self.out.lines += 1;
+                    }
+                }
+            }
+        }
         let t_opt: Option<i64> = if self.expiring {
             match op.name.as_str() { "insert" => Some(a[3]), "fl" | "fle" | "fleby" | "get" | "export" => Some(a[0]), _ => None }
         } else { None };
